@@ -28,7 +28,7 @@ partial def nodeJ : Node → J
   | .spAssign p l r m => J.arr [J.s "SpAssignOperation", J.s "assign", J.int p, nodeJ l, nodeJ r, J.str m]
   | .strOp k p a b c => J.arr [J.s "StringOperation", J.str k, J.int p, nodeJ a, nodeJ b, nodeJ c]
   | .unaryStr op p t x => J.arr [J.s "UnaryStringOperation", J.str op, J.int p, (match t with | some t => J.str t | none => J.null), nodeJ x]
-  | .propAcc p o pr => J.arr [J.s "PropertyAccessorOperation", J.s "accessor", J.int p, nodeJ o, J.str pr]
+  | .propAcc p o pr ex => J.arr [J.s "PropertyAccessorOperation", J.s "accessor", J.int p, nodeJ o, J.str pr, J.bool ex]
   | .keyAcc p pr => J.arr [J.s "KeyPropertyAccessorOperation", J.s "accessor", J.int p, J.str pr]
   | .menuItemAcc p m i => J.arr [J.s "MenuitemAccessorOperation", J.s "menu_item", J.int p, nodeJ m, nodeJ i]
   | .menuItemsAcc p m => J.arr [J.s "MenuitemsAccessorOperation", J.s "menu_items", J.int p, nodeJ m]
